@@ -314,7 +314,20 @@ impl World {
         }
         let src = self.next_src.take().unwrap_or_else(|| line.clone());
         self.steps.push(StepRec { line: line.clone(), src, out: out.clone() });
-        if t[0] == "batch" {
+        if t[0] == "deliver" && t.get(1) == Some(&"many") {
+            // each frame is observed as a delivery of its own (bookkeeping of credit and of the in-use
+            // shadows); the monitors that relate ONE delivered frame to the events of its step are off
+            let (_, evs) = out.split_once(" | ").unwrap_or((out.as_str(), ""));
+            self.in_batch = true;
+            let n = t.len() - 2;
+            for (k, h) in t[2..].iter().enumerate() {
+                self.skip_events = k + 1 < n;
+                let o = format!("unit | {evs}");
+                self.observe(e, &["deliver", "bin", h], &o);
+            }
+            self.skip_events = false;
+            self.in_batch = false;
+        } else if t[0] == "batch" {
             // each call is observed with its own answer; the events of the step (the task ran once, after
             // all of them) are processed with the last one
             let (rs, evs) = out.split_once(" | ").unwrap_or((out.as_str(), ""));
@@ -655,7 +668,7 @@ impl World {
                     let reset_id = format!("wire {}", hexd(&[&[0x72u8][..], &id.to_be_bytes()[..]].concat()));
                     let in_use = self.est[e].contains_key(&id) || self.pend[e].contains_key(&id) || self.inc[e].values().any(|v| *v == id);
                     let up = !self.view[e].exited && self.view[e].terminated_by.is_none();
-                    if op == 5 && frame_valid(t[2]) && up && self.view[e].mux_alive && self.opts[e].bind_cap > 0 && evl.contains(&reset_id.as_str()) {
+                    if !self.in_batch && op == 5 && frame_valid(t[2]) && up && self.view[e].mux_alive && self.opts[e].bind_cap > 0 && evl.contains(&reset_id.as_str()) {
                         // C15: with binds enabled and the Multiplexor alive, a Bind request is the application's
                         // to decide — whatever its flow id (the reply carries nothing but the id; the acceptor's
                         // own flow table is not consulted). A Reset in the very step that receives it is a
@@ -665,20 +678,20 @@ impl World {
                             self.fails.push(("C15".into(), "bind-reset-unasked".into(), msg));
                         }
                     }
-                    if op == 2 && evl.contains(&reset_id.as_str()) {
+                    if !self.in_batch && op == 2 && evl.contains(&reset_id.as_str()) {
                         // C10 / PROTOCOL.md: never a Reset in reply to a Reset (whatever the id, 0 included)
                         let msg = format!("endpoint {} answered the Reset frame {} with a Reset of the same flow ({}): two such endpoints would bounce it for ever", NAMES[e], t[2], evl.join("; "));
                         if !self.fails.iter().any(|f| f.0 == "C10" && f.1 == "reset-answered-with-reset") {
                             self.fails.push(("C10".into(), "reset-answered-with-reset".into(), msg));
                         }
                     }
-                    if op == 6 && up && !evl.is_empty() {
+                    if !self.in_batch && op == 6 && up && !evl.is_empty() {
                         // C11: a datagram is queued for the application or dropped; nothing else happens
                         let msg = format!("endpoint {} reacted to the datagram frame {} with: {}", NAMES[e], t[2], evl.join("; "));
                         self.fail("C11", "dgram-disturbs", msg);
                     }
                     match op {
-                        0 if in_use && up => {
+                        0 if in_use && up && !self.in_batch => {
                             // C07 / C10: a Connect whose id is in use is answered with a Reset and nothing else
                             // happens (the Reset may be held back by a blocked sink)
                             let ok = evl.len() <= 1 && evl.iter().all(|x| **x == reset_id);
@@ -702,9 +715,8 @@ impl World {
                             }
                         }
                         4 => {
-                            if let Some(h) = self.est[e].get(&id).copied() {
-                                let hi = &self.view[e].handles[h];
-                                if clean && !self.reused && up && hi.alive && !hi.eof && evl.contains(&reset_id.as_str()) {
+                            if let Some(hi) = self.est[e].get(&id).copied().and_then(|h| self.view[e].handles.get(h)) {
+                                if !self.in_batch && clean && !self.reused && up && hi.alive && !hi.eof && evl.contains(&reset_id.as_str()) {
                                     let msg = format!("endpoint {} reset flow {id:08x} on receiving a Push although its application holds the stream open for reading and both ends are conforming endpoints (receive window overrun)", NAMES[e]);
                                     self.fail("C03", "reset-for-overrun", msg);
                                 }
@@ -1179,6 +1191,24 @@ fn run_case(r: &mut Rng, focus: Focus, len: usize) -> World {
         let mut k = r.below(total);
         // deliver
         if k < wd {
+            // now and then two or three of the peer's frames become available at once
+            if r.chance(1, 8) && w.wire[1 - e].len() >= 2 && !w.view[e].exited {
+                let mut t = vec![s("deliver"), s("many")];
+                let n = r.range(2, 3);
+                for _ in 0..n {
+                    match w.wire[1 - e].front() {
+                        Some(m) if !matches!(m.as_str(), "ping" | "pong" | "close") => { t.push(w.wire[1 - e].pop_front().unwrap()); }
+                        _ => break,
+                    }
+                }
+                if t.len() >= 4 {
+                    w.exchanged = true;
+                    w.stim(e, &t);
+                    continue;
+                }
+                // (fewer than two frames at the head: put back what was taken)
+                for m in t.drain(2..).rev() { w.wire[1 - e].push_front(m); }
+            }
             w.deliver_next(e);
             continue;
         }
@@ -1765,6 +1795,10 @@ fn replay_lines(lines: &[String]) -> Option<World> {
         if toks[0] == "deliver" && toks.get(1).map(String::as_str) == Some("bin") {
             // an injected frame unless it is the head of the peer's wire
             if w.wire[1 - e].front() == toks.get(2) { w.wire[1 - e].pop_front(); } else { w.injected = true; }
+        } else if toks[0] == "deliver" && toks.get(1).map(String::as_str) == Some("many") {
+            for h in &toks[2..] {
+                if w.wire[1 - e].front() == Some(h) { w.wire[1 - e].pop_front(); } else { w.injected = true; }
+            }
         } else if toks[0] == "deliver" && toks.get(1).map(String::as_str) == Some("closemany") {
             // the frames behind the Close are the head of the peer's wire, or injected
             for h in &toks[2..] {
@@ -1859,8 +1893,27 @@ fn link_projections(w: &World) -> Vec<(String, Vec<LinkReq>)> {
                 Some((5, _, _)) => waiting[e][1] += 1,
                 _ => {}
             },
+            "deliver" if matches!(t.get(2), Some(&"many" | &"closemany")) => {
+                for h in &t[3..] {
+                    match parse_frame(h) {
+                        Some((0, _, _)) => waiting[e][0] += 1,
+                        Some((5, _, _)) => waiting[e][1] += 1,
+                        _ => {}
+                    }
+                }
+            }
             "accept" if res.starts_with("stream") => waiting[e][0] = waiting[e][0].saturating_sub(1),
             "bindnext" if res.starts_with("bindreq") => waiting[e][1] = waiting[e][1].saturating_sub(1),
+            // (calls of a batch, in order)
+            "batch" => {
+                for (c, r) in t[2..].split(|x| *x == ";").zip(res.split(" , ")) {
+                    match c.first().copied() {
+                        Some("accept") if r.starts_with("stream") => waiting[e][0] = waiting[e][0].saturating_sub(1),
+                        Some("bindnext") if r.starts_with("bindreq") => waiting[e][1] = waiting[e][1].saturating_sub(1),
+                        _ => {}
+                    }
+                }
+            }
             _ => {}
         }
         if waiting[e][0] > w.opts[e].accept_cap || (w.opts[e].bind_cap > 0 && waiting[e][1] > w.opts[e].bind_cap) {
@@ -1927,6 +1980,8 @@ fn link_projections(w: &World) -> Vec<(String, Vec<LinkReq>)> {
                         let n = t.get(3).copied().unwrap_or("0");
                         reqs.push(LinkReq { req: format!("read {n}"), expect: Some(res.to_string()), step: i });
                     }
+                    // (several frames at once: this direction is compared up to the first such delivery that carries one of its frames)
+                    "deliver" if t.get(2) == Some(&"many") && t[3..].iter().any(|h| parse_frame(h).is_some_and(|(_, id, _)| id == fid)) => break,
                     "deliver" if t.get(2) == Some(&"bin") => {
                         let Some(hex) = t.get(3) else { continue };
                         let Some((op, id, p)) = parse_frame(hex) else { continue };
@@ -1992,6 +2047,7 @@ fn attribute(line: &str) -> Vec<&'static str> {
         "bindreq" | "bindnext" | "bindreply" | "binddrop" => vec!["C15"],
         "dropmux" | "sinkblock" | "sinkunblock" | "sinkgrant" => vec!["C08", "C02"],
         "deliver" => match t.get(2).copied() {
+            Some("many") => vec!["C02", "C03", "C04", "C05", "C06", "C07", "C08", "C10", "C11", "C12", "C15"],
             Some("bin") => match t.get(3).and_then(|h| parse_frame(h)).map(|f| f.0) {
                 Some(0) => vec!["C07", "C10"],
                 Some(1) => vec!["C03", "C07", "C10"],
